@@ -278,10 +278,10 @@ def specs(draw, recursive=False, weights=(0.0, 0.25, 0.5, 1.0, 2.0), max_nts=4, 
 
 
 @st.composite
-def patterned(draw, spec_strategy, weights=(0.0, 0.25, 0.5, 1.0, 2.0), p_label=0.4, p_term=0.4, p_bcast=0.15):
+def patterned(draw, spec_strategy, weights=(0.0, 0.25, 0.5, 1.0, 2.0), p_label=0.4, p_term=0.4, p_bcast=0.15, defaults=(0.0,)):
     """A spec some of whose terminal weights are typed patterned tensors.  Every node label gets one index type
     (atom, or a two-summand sum, or 2x2 product) so that all factors over one label are patterns of the same type;
-    terminal['pattern'] holds the G2 tensor spec (real domain, default 0) and terminal['weights'] its dense value."""
+    terminal['pattern'] holds the G2 tensor spec (real domain; default 0 unless `defaults` says otherwise) and terminal['weights'] its dense value."""
     from . import gen_pattern as gp
     spec = draw(spec_strategy)
     ltypes = {}
@@ -294,7 +294,7 @@ def patterned(draw, spec_strategy, weights=(0.0, 0.25, 0.5, 1.0, 2.0), p_label=0
         ltypes[n] = T
     for name, t in spec['terminals'].items():
         if t['type'] and draw(st.floats(0, 1)) < p_term:
-            ps = draw(gp.tensor_specs([ltypes[nl] for nl in t['type']], values=tuple(weights), defaults=(0.0,), p_bcast=p_bcast))
+            ps = draw(gp.tensor_specs([ltypes[nl] for nl in t['type']], values=tuple(weights), defaults=tuple(defaults), p_bcast=p_bcast))
             t['pattern'] = ps
             t['weights'] = gp.dense_of(ps).tolist()
     spec['label_types'] = ltypes
@@ -310,7 +310,7 @@ def scale_weights(spec, factor):
     for k, v in spec['terminals'].items():
         nv = dict(v, weights=sc(v['weights']))
         if v.get('pattern'):
-            nv['pattern'] = dict(v['pattern'], phys=[x * factor for x in v['pattern']['phys']])
+            nv['pattern'] = dict(v['pattern'], phys=[x * factor for x in v['pattern']['phys']], default=v['pattern']['default'] * factor)
         out['terminals'][k] = nv
     return out
 
@@ -353,7 +353,8 @@ def build_patterned_weight(ps, kind, dtype, info, name, leaf=False):
         t = t.expand(sizes)
     paxes = tuple(PhysicalAxis(n) for n in sizes)
     vaxes = tuple(gp.build_axis(P, paxes) for P in ps['vaxes'])
-    default = {'real': 0.0, 'log': -INF, 'viterbi': -INF, 'bool': False}[kind]
+    # the default is the real-domain default of the spec (usually 0 = the semiring zero) in the semiring's domain
+    default = _convert(float(ps.get('default', 0.0)), kind, dtype).item()
     return PatternedTensor(t, paxes, vaxes, default)
 
 
